@@ -433,6 +433,13 @@ def World.scale (w : World) (sid : Nat) (q : Rat) : World :=
 
 def World.empty (w : World) (sid : Nat) : World := w.scale sid 0
 
+/-- `Stream.empty_negative_flows()` → `imol.data.remove_negatives()`: every negative molar flow of every row is deleted
+*in place* (the row objects, hence everything the cached views wrap, stay the same objects) -/
+def World.removeNegatives (w : World) (sid : Nat) : World :=
+  let rs := w.rowsOf sid
+  { w with c := { w.c with rows := fun r => if r ∈ rs then (w.c.rows r).map (fun x => if x < 0 then 0 else x)
+                                           else w.c.rows r } }
+
 /-- the setters of `F_mol`, `F_mass`, `F_vol` -/
 def World.setF (w : World) (sid : Nat) (d : Dim) (x : Rat) (V : List (List Rat)) : Except Err World :=
   let F := w.F sid d V
@@ -1018,6 +1025,7 @@ inductive Op where
   | unitFor (d : Dim) (u : String)
   | scale (s : Nat) (q : Rat)
   | empty (s : Nat)
+  | removeNegatives (s : Nat)
   | readAgg (s : Nat) (d : Dim) (V : Mat)
   | getFlowAll (s : Nat) (u : String) (V : Mat)
 
@@ -1037,7 +1045,7 @@ def Op.sids : Op → List Nat
   | .readMol s | .readMass s | .readVol s _ | .readF s _ _ | .writeF s _ _ _ | .get s _ _ _ _
   | .put s _ _ _ _ _ | .putRow s _ _ _ _ | .getFlow s _ _ _ _ | .setFlow s _ _ _ _ _ | .getTotal s _ _ | .setTotal s _ _ _
   | .getData s _ _ _ _ _ | .setData s _ _ _ _ _ _ | .getProp s _ _ _ | .setProp s _ _ _ _
-  | .scale s _ | .empty s | .readAgg s _ _ | .getFlowAll s _ _ => [s]
+  | .scale s _ | .empty s | .removeNegatives s | .readAgg s _ _ | .getFlowAll s _ _ => [s]
   | .link s o _ _ _ | .copyLike s o _ => [s, o]
 
 /-- the stream an operation would rebind or re-class; refused for the indexer of a phase view (`LockedPhase`), which only
@@ -1105,6 +1113,7 @@ def World.exec (w : World) (op : Op) : Except Err (World × Out) :=
   | .unitFor d u => (w.viewUnit d u).map (fun f => (w, .num none f))
   | .scale s q => okShape (w.scale s q) s
   | .empty s => okShape (w.empty s) s
+  | .removeNegatives s => okShape (w.removeNegatives s) s
   | .readAgg s d V => (w.readAgg s d V).map (fun (w1, vid, r) => (w1, .mat vid [r]))
   | .getFlowAll s u V => (w.getFlowAll s u V).map (fun (w1, vid, r) => (w1, .mat vid [r]))
 
